@@ -145,6 +145,15 @@ class Lib:
             except IndexError:
                 ex.raise_builtin(IndexError)
         if isinstance(v, PDict):
+            if isinstance(idx, Sym) and idx.ty == INT and concrete_int(lift_int(idx)) is None \
+                    and all(isinstance(k, int) and not isinstance(k, bool) for k in v.d):
+                # a table with concrete integer keys looked up with a symbolic
+                # integer: one path per key, KeyError otherwise
+                t = lift_int(idx)
+                for k in list(v.d):
+                    if ex.fork(t == k, f"key == {k}"):
+                        return v.d[k]
+                ex.raise_builtin(KeyError, idx)
             k = ex.hashable(idx) if isinstance(idx, Sym) else idx
             if isinstance(k, tuple):
                 k = tuple(ex.hashable(x) if isinstance(x, Sym) else x for x in k)
@@ -227,6 +236,15 @@ class Lib:
             v.obj.fields[idx] = value
             return
         if isinstance(v, PDict):
+            symbolic = isinstance(idx, Sym) and concrete_int(lift_int(idx)) is None if isinstance(idx, Sym) \
+                and idx.ty == INT else (isinstance(idx, tuple) and any(
+                    isinstance(x, Sym) and concrete_int(lift_int(x)) is None for x in idx))
+            if symbolic and ex.opt.get("ghost_dict"):
+                # a dict filled under symbolic keys: kept as the ghost list of
+                # (key, value) insertions, in order (spec function entries());
+                # the contract requires the keys to be pairwise distinct
+                v.d[("entry", len(v.d))] = (idx, value)
+                return
             k = ex.hashable(idx) if isinstance(idx, Sym) else idx
             if isinstance(k, tuple):
                 k = tuple(ex.hashable(x) if isinstance(x, Sym) else x for x in k)
